@@ -525,6 +525,10 @@ class A:
             if o.shape != self.shape:
                 raise ValueError("operands could not be broadcast together")
             oc = [x.item() for x in o.flat]
+        elif isinstance(o, (list, tuple)):
+            if len(o) != len(self.idx) or self.ndim != 1:
+                raise ValueError("operands could not be broadcast together")
+            oc = list(o)
         else:
             oc = [o] * len(self.idx)
         return A([f(a, b) for a, b in zip(self.cells, oc)], dt or self.dtype, self.shape)
@@ -559,6 +563,21 @@ class A:
     def __rtruediv__(self, o): return self._ew(o, lambda a, b: fdiv(b, a), self._arith_dt(o, True))
     def __floordiv__(self, o): return self._ew(o, _floordiv, self._arith_dt(o))
     def __neg__(self): return A([-c for c in self.cells], self.dtype, self.shape)
+
+    # in-place operators write through views, as numpy does
+    def _inplace(self, o, f):
+        r = self._ew(o, f, self.dtype)
+        if r is NotImplemented:
+            return r
+        self._bulk_store(slice(None), r, current())
+        if self.st.origin is not None:
+            rt = current()
+            rt.obligations.append(("input_write", True, False, rt.where() + ":" + str(self.st.origin)))
+        return self
+
+    def __iadd__(self, o): return self._inplace(o, _add)
+    def __isub__(self, o): return self._inplace(o, _sub)
+    def __imul__(self, o): return self._inplace(o, _mul)
 
     def __pow__(self, k):
         if k == 2:
